@@ -111,10 +111,14 @@ def run(ctx, report):
     # is the dispatch guarded by membership?
     guarded = False
     for n in walk_no_nested(eo):
-        if isinstance(n, ast.If) and isinstance(n.test, (ast.Compare, ast.UnaryOp)):
-            t = u(n.test)
-            if ('in self.deal_op' in t or 'in eval_abs.deal_op' in t) and any(isinstance(s, ast.Return) for s in n.body):
-                guarded = True
+        if isinstance(n, ast.If):
+            # `if not e.op in self.deal_op: return ..` -- alone or as one alternative of an `or`
+            alts = n.test.values if isinstance(n.test, ast.BoolOp) and isinstance(n.test.op, ast.Or) else [n.test]
+            for alt in alts:
+                t = u(alt)
+                neg = (isinstance(alt, ast.UnaryOp) and isinstance(alt.op, ast.Not)) or (isinstance(alt, ast.Compare) and isinstance(alt.ops[0], ast.NotIn))
+                if isinstance(alt, (ast.Compare, ast.UnaryOp)) and ('in self.deal_op' in t or 'in eval_abs.deal_op' in t) and neg and any(isinstance(s, ast.Return) for s in n.body):
+                    guarded = True
 
     # operators used by the lifter
     uses = {}
@@ -401,6 +405,11 @@ def run(ctx, report):
     compose_fold_rule(R6, ea, ec)
     mem_read_fold_rule(R6, ea, methods)
 
+    # ---------------------------------------------------------------- D10 evaluation leaves the caller's expression as it was
+    R10 = report.rule('C06.D10', 'the simplifier the evaluator runs on its argument never modifies that argument (a second evaluation of the same object must see the same expression; shared with C13.D4)', floor=3)
+    from .c13 import input_untouched_rule
+    input_untouched_rule(ctx, R10)
+
     # ---------------------------------------------------------------- D9 the memory model works on addresses of one width
     R9 = report.rule('C06.D9', 'the memory model adds 32-bit constants to cell addresses: every address that enters it (read, store) is widened to 32 bits first', floor=3)
     addr_width_rule(R9, ea, methods)
@@ -422,8 +431,18 @@ def run(ctx, report):
             rets = [r for r in walk_no_nested(f_) if isinstance(r, ast.Return) and r.value is not None]
             return bool(rets) and all((isinstance(r.value, ast.Name) and r.value.id == p0) or (isinstance(r.value, ast.Call) and u(r.value.func) == 'expr_simp') for r in rets)
         return False
-    reader_simplified = bool(a_val) and all(keeps_simplified(n.value) for n in a_val) \
-        and any('a_val in self.pool.pool_mem' in u(n) for n in walk_no_nested(em) if isinstance(n, ast.If))
+    def looks_up(fn, var, depth=0):
+        """fn tests `var in self.pool.pool_mem`, or hands var to a method of the class that does so with its parameter"""
+        if any(('%s in self.pool.pool_mem' % var) in u(n) for n in walk_no_nested(fn) if isinstance(n, ast.If)):
+            return True
+        if depth < 2:
+            for c in walk_no_nested(fn):
+                if isinstance(c, ast.Call) and isinstance(c.func, ast.Attribute) and u(c.func.value) == 'self' and c.func.attr in methods and [u(a) for a in c.args] == [var]:
+                    callee = methods[c.func.attr]
+                    if len(callee.args.args) > 1 and looks_up(callee, callee.args.args[1].arg, depth + 1):
+                        return True
+        return False
+    reader_simplified = bool(a_val) and all(keeps_simplified(n.value) for n in a_val) and looks_up(em, 'a_val')
     if not reader_simplified:
         raise AnalysisError('eval_ExprMem no longer looks memory cells up by expr_simp(address) in pool_mem: rule C06.D7 has to be re-read')
     R7.ok('reader:eval_ExprMem', sample='eval_ExprMem: a_val = expr_simp(eval(addr)); a_val in self.pool.pool_mem')
@@ -518,7 +537,31 @@ def run(ctx, report):
 
     R4 = report.rule('C06.D4', 'results are cast to the operands\' type; identifiers are looked up exactly', floor=2)
     txt = u(eo)
-    if 'return ExprInt(cast_int(ret_value))' in txt and 'cast_int = types_tab[0]' in txt and 'types_tab = [type(a) for a in args]' in txt:
+    def _cast_is_first_operand_type(fn):
+        """the returned constant is ExprInt(C(..)) with C = <types>[0], <types> = [type(x) for x in <operand values>] (the operands themselves or their .arg)"""
+        asg = {}
+        for n_ in walk_no_nested(fn):
+            if isinstance(n_, ast.Assign) and len(n_.targets) == 1 and isinstance(n_.targets[0], ast.Name):
+                asg.setdefault(n_.targets[0].id, []).append(n_.value)
+        for r_ in walk_no_nested(fn):
+            if not (isinstance(r_, ast.Return) and isinstance(r_.value, ast.Call) and u(r_.value.func) == 'ExprInt' and r_.value.args and isinstance(r_.value.args[0], ast.Call)
+                    and isinstance(r_.value.args[0].func, ast.Name)):
+                continue
+            c_ = r_.value.args[0].func.id
+            for v_ in asg.get(c_, []):
+                if isinstance(v_, ast.Subscript) and isinstance(v_.slice, ast.Constant) and v_.slice.value == 0 and isinstance(v_.value, ast.Name):
+                    for t_ in asg.get(v_.value.id, []):
+                        if isinstance(t_, ast.ListComp) and isinstance(t_.elt, ast.Call) and u(t_.elt.func) == 'type' and len(t_.generators) == 1:
+                            it_ = t_.generators[0].iter
+                            if u(it_) == 'args':
+                                return True
+                            if isinstance(it_, ast.Name):
+                                for w_ in asg.get(it_.id, []):
+                                    if isinstance(w_, ast.ListComp) and len(w_.generators) == 1 and u(w_.generators[0].iter) == 'args' and isinstance(w_.elt, ast.Attribute) \
+                                            and w_.elt.attr == 'arg':
+                                        return True
+        return False
+    if _cast_is_first_operand_type(eo):
         R4.ok('eval_ExprOp:cast', sample='eval_ExprOp: ExprInt(cast_int(ret_value)), cast_int = type of the first operand')
     else:
         R4.violation('eval_ExprOp:cast', 'eval_ExprOp:cast', 'the scalar result is no longer wrapped as ExprInt(type-of-first-operand(result))', where(ea, eo))
